@@ -69,7 +69,8 @@ CARDS_BAD = [-1, {"tuple": [-1, 2]}, {"tuple": [3, 1]}, {"tuple": [1, 2, 3]}, {"
 class Profile(object):
     def __init__(self, name, weights, fault_share=0.3, length=(3, 15), long_share=0.15,
                  long_length=(16, 40), max_objs=40, names=None, rare_name_share=0.05,
-                 backends=("xml", "json", "yaml"), dtypes=None, detached_share=0.35):
+                 backends=("xml", "json", "yaml"), dtypes=None, detached_share=0.35,
+                 save_only_backends=()):
         self.name = name
         self.weights = dict(weights)
         self.fault_share = fault_share
@@ -82,6 +83,7 @@ class Profile(object):
         self.backends = backends
         self.dtypes = dtypes or DTYPES
         self.detached_share = detached_share
+        self.save_only_backends = save_only_backends
 
     def describe(self):
         return {"name": self.name, "fault_share": self.fault_share,
@@ -841,7 +843,8 @@ class Gen(object):
         if x is None:
             return None
         return {"op": "validate_custom", "x": self.ref(x),
-                "klass": self.pick(["section", "property", "odML"]), "report": self.chance(0.3)}
+                "klass": self.pick(["section", "property", "odML"]), "report": self.chance(0.3),
+                "raising": self.chance(0.25)}
 
     # durable store
     def _valid_docs(self):
@@ -851,14 +854,17 @@ class Gen(object):
         d = self.pick(self._valid_docs())
         if d is None:
             return None
+        backends = list(self.p.backends) + list(getattr(self.p, "save_only_backends", ()))
         return {"op": "save", "d": self.ref(d), "name": self.pick(["f1", "f2"]),
-                "backend": self.pick(list(self.p.backends))}
+                "backend": self.pick(backends)}
 
     def g_load(self):
         if not self.U.files:
             return None
-        ent_i = self.rng.randrange(len(self.U.files))
-        return {"op": "load", "f": ent_i}
+        loadable = [i for i, ent in enumerate(self.U.files) if ent["backend"] != "rdf"]
+        if not loadable:
+            return None
+        return {"op": "load", "f": self.pick(loadable)}
 
     def g_damage_file(self):
         if not self.U.files:
